@@ -135,7 +135,7 @@ func vfArchiveRoundTrip(c *vfCtx, srcRoot, name string, stream []byte, nameJSON 
 func vfSmallTrees(r *vfRand, n int) []vfFileSpec {
 	var specs []vfFileSpec
 	specs = append(specs, vfFileSpec{Rel: "t", Dir: true})
-	names := []string{"a", "b", "cc", "d", "é", "f g"}
+	names := []string{"a", "b", "cc", "d", "é", "f g", "w\\s", "x..y", "q\"r"}
 	for i := 0; i < n; i++ {
 		p := "t"
 		for d := r.Intn(3); d > 0; d-- {
@@ -153,7 +153,7 @@ func vfSmallTrees(r *vfRand, n int) []vfFileSpec {
 func vfLargeTree(r *vfRand, entries int, maxFile int) []vfFileSpec {
 	specs := []vfFileSpec{{Rel: "big", Dir: true}}
 	dirs := []string{"big"}
-	names := []string{"x", "データ", "with space", "emoji😀", "-d", ".h"}
+	names := []string{"x", "データ", "with space", "emoji😀", "-d", ".h", "back\\slash", "dot..dot", "C:\\temp"}
 	for i := 0; i < entries; i++ {
 		parent := dirs[r.Intn(len(dirs))]
 		if strings.Count(parent, "/") < 6 && r.Intn(5) == 0 {
